@@ -123,6 +123,20 @@ def gen_cases(run, rules):
                                          allow=rng.random() < 0.3, shape="providers/" + prov))
                     else:
                         cases.append(android(host, rp, prov=prov, shape="providers/%s/android" % prov))
+    # a verdict does not depend on what the same verifier judged before: an accepted pair is judged (twice) first, then the same
+    # host and RP ID under another scheme / port, a look-alike host, another RP ID, another host, the same pair again
+    for host, rp in [("example.com", "example.com"), ("www.example.com", "example.com"), ("example.com", None), ("localhost", None),
+                     ("site.co.uk", "site.co.uk"), ("xn--bcher-kva.example", None)]:
+        first = {"kind": "web", "url": "https://%s/" % host, "rp": rp}
+        for url2, rp2 in [("http://%s/" % host, rp), ("ftp://%s/" % host, rp), ("http://%s:8080/" % host, rp), ("wss://%s/" % host, rp),
+                          ("https://evil%s/" % host, rp), ("https://%s/" % host, "com"), ("https://%s/" % host, rp), ("https://other.org/", rp),
+                          ("https://%s./" % host, rp)]:
+            for allow in (False, True):
+                c = web(url2, rp2, allow=allow, shape="history")
+                c["before"] = [first, first]
+                cases.append(c)
+        c = android(host, rp, shape="history/android"); c["before"] = [first]
+        cases.append(c)
     # end to end on every third case
     for i, c in enumerate(cases):
         c["e2e"] = (i % 3 == 0)
